@@ -97,9 +97,11 @@ def deductive(res, agg):
                 names |= set(v.dims)
             ok = names <= {S, F, "§F1", "§F2", "mode", "mode_m", "mode_n"}
             agg.vc(name, "results carry only the configured names and 'mode'", struct_vc(ok, str(names)), "")
+    # ---- models built on top of EOF hand the user's settings to the inner model (symbolic tokens = all values)
+    deductive_inner_models(res, agg)
     # ---- layout independence of the preprocessing chain
     fn = "Preprocessor.fit_transform"
-    for sample, feature in ((("time",), ("lat", "lon")), (("t1", "t2"), ("x",)), (("time",), ("a", "b", "c"))):
+    for sample, feature in ((("time",), ("x",)), (("time",), ("lat", "lon")), (("t1", "t2"), ("x",)), (("time",), ("a", "b", "c"))):
         dims = list(sample) + list(feature)
         ref = None
         for order in itertools.permutations(dims):
@@ -123,6 +125,95 @@ def deductive(res, agg):
                        struct_vc(sig == ref[0], f"{order}: {sig} vs {ref[1]}: {ref[0]}"), f"sample={','.join(sample)}")
                 back = pth.value["back"]
                 agg.vc(fn, "and the way back restores that order", struct_vc(back.dims == tuple(order), f"{back.dims}"), f"sample={','.join(sample)}")
+
+
+class _Tok(str):
+    """an opaque parameter value: stands for every value the user may pass"""
+
+
+def deductive_inner_models(res, agg):
+    import xeofs.single.eeof as eeofmod
+    import xeofs.single.opa as opamod
+    import xeofs.validation.bootstrapper as bsmod
+    rng = np.random.default_rng(0)
+    X2 = xr.DataArray(rng.standard_normal((12, 5)), dims=("obs", "cell"), coords={"obs": np.arange(12), "cell": np.arange(5)})
+    tok = {k: _Tok(f"<{k}>") for k in ("solver", "random_state")}
+    skw = {"tok": object()}
+
+    class Stop(Exception):
+        pass
+    calls = []
+
+    class Rec:
+        def __init__(self, **kw):
+            calls.append(kw)
+            self.kw = kw
+
+        def fit(self, X, dim=None, **k):
+            self.fit_dim = dim
+            calls.append({"__fit_dim__": dim, "__dims__": tuple(X.dims)})
+            raise Stop()
+
+    def run(mod, build, go):
+        calls.clear()
+        old = mod.EOF
+        mod.EOF = Rec
+        try:
+            obj = build()
+            try:
+                go(obj)
+            except Stop:
+                pass
+            except Exception as e:  # noqa: BLE001
+                calls.append({"__error__": f"{type(e).__name__}: {e}"})
+        finally:
+            mod.EOF = old
+        return list(calls)
+
+    def expect(fn, got, want, cfg=""):
+        bad = {k: (got.get(k), v) for k, v in want.items() if got.get(k) is not v and got.get(k) != v}
+        agg.vc(fn, "the inner EOF model receives the user's names, solver, seed and options", struct_vc(not bad, str(bad)[:220]), cfg)
+
+    # ExtendedEOF: inner pre-PCA and inner decomposition
+    cs = run(eeofmod, lambda: xeofs.single.ExtendedEOF(n_modes=3, tau=1, embedding=2, n_pca_modes=4, sample_name="obs", feature_name="cell",
+                                                      solver=tok["solver"], random_state=tok["random_state"], solver_kwargs=skw, compute=True),
+             lambda m: eeofmod.ExtendedEOF._fit_algorithm(m, X2))
+    ctor = [c_ for c_ in cs if "__fit_dim__" not in c_ and "__error__" not in c_]
+    if ctor:
+        expect("ExtendedEOF.__init__ (pre-PCA)", ctor[0], dict(n_modes=4, center=True, standardize=False, sample_name="obs", feature_name="cell", solver_kwargs=skw))
+    cs = run(eeofmod, lambda: xeofs.single.ExtendedEOF(n_modes=3, tau=1, embedding=2, sample_name="obs", feature_name="cell",
+                                                      solver=tok["solver"], random_state=tok["random_state"], solver_kwargs=skw, compute=True),
+             lambda m: eeofmod.ExtendedEOF._fit_algorithm(m, X2))
+    ctor = [c_ for c_ in cs if "__fit_dim__" not in c_ and "__error__" not in c_]
+    fits = [c_ for c_ in cs if "__fit_dim__" in c_]
+    errs = [c_ for c_ in cs if "__error__" in c_]
+    agg.vc("ExtendedEOF._fit_algorithm", "reaches the inner EOF fit with custom dimension names", struct_vc(bool(ctor) and bool(fits) and not errs, str(errs)[:200]), "")
+    if ctor:
+        expect("ExtendedEOF._fit_algorithm", ctor[-1], dict(n_modes=3, center=True, standardize=False, use_coslat=False, sample_name="obs", feature_name="cell",
+                                                            solver=tok["solver"], solver_kwargs=skw, check_nans=False))
+    if fits:
+        agg.vc("ExtendedEOF._fit_algorithm", "the delay-embedded matrix is fitted along the model's sample dimension",
+               struct_vc(fits[-1]["__fit_dim__"] == "obs" and "embedding" in fits[-1]["__dims__"], str(fits[-1])), "")
+    # OPA: inner pre-PCA
+    cs = run(opamod, lambda: xeofs.single.OPA(n_modes=2, tau_max=2, n_pca_modes=4, sample_name="obs", feature_name="cell", solver=tok["solver"],
+                                             random_state=tok["random_state"], solver_kwargs=skw, compute=True),
+             lambda m: opamod.OPA._fit_algorithm(m, X2))
+    ctor = [c_ for c_ in cs if "__fit_dim__" not in c_ and "__error__" not in c_]
+    if ctor:
+        expect("OPA._fit_algorithm", ctor[0], dict(n_modes=4, standardize=False, use_coslat=False, sample_name="obs", feature_name="cell", solver=tok["solver"],
+                                                   random_state=tok["random_state"], solver_kwargs=skw, check_nans=False, compute=True))
+        agg.vc("OPA._fit_algorithm", "the pre-PCA is centred (default or explicit center=True)", struct_vc(ctor[0].get("center", True) is True, str(ctor[0].get("center"))), "")
+    else:
+        agg.vc("OPA._fit_algorithm", "constructs its inner EOF", struct_vc(False, str(cs)[:200]), "")
+    # Bootstrapper: member models
+    base = xeofs.single.EOF(n_modes=2, sample_name="obs", feature_name="cell", solver="full").fit(X2.rename(obs="time"), "time")
+    cs = run(bsmod, lambda: xeofs.validation.EOFBootstrapper(n_bootstraps=2, seed=3), lambda b: b.fit(base))
+    ctor = [c_ for c_ in cs if "__fit_dim__" not in c_ and "__error__" not in c_]
+    errs = [c_ for c_ in cs if "__error__" in c_]
+    agg.vc("EOFBootstrapper.fit", "reaches the member fit for a model with custom dimension names", struct_vc(bool(ctor) and not errs, str(errs)[:200]), "")
+    if ctor:
+        expect("EOFBootstrapper.fit", ctor[0], dict(n_modes=2, standardize=False, use_coslat=False, sample_name="obs", feature_name="cell"))
+        agg.vc("EOFBootstrapper.fit", "member models are centred EOF analyses", struct_vc(ctor[0].get("center", True) is True, str(ctor[0].get("center"))), "")
 
 
 # ---------------------------------------------------------------- bounded
@@ -231,6 +322,22 @@ def eval_case(c):
     if rel == "transpose":
         perm = ("lon", "time", "lat") if c.get("variant", 0) == 0 else ("lat", "lon", "time")
         check(_fit(model, da.transpose(*perm), Y=Y))
+    elif rel == "transpose-2d":
+        X2 = da.stack(x=("lat", "lon")).reset_index("x", drop=True).assign_coords(x=np.arange(12))
+        if model == "EOF":
+            a = xeofs.single.EOF(n_modes=0.8, solver="full").fit(X2, "time")
+            b = xeofs.single.EOF(n_modes=0.8, solver="full").fit(X2.transpose("x", "time"), "time")
+            if a.data["norms"].size != b.data["norms"].size or real.relerr(a.data["norms"].values, b.data["norms"].values) > tol:
+                msgs.append(f"transpose-2d: fractional n_modes keeps {b.data['norms'].size} modes for the transposed layout, {a.data['norms'].size} otherwise")
+            else:
+                _cmp(a.scores(), b.scores(), "transpose-2d: scores", msgs, tol)
+        else:
+            Y2 = Y.stack(y=("lat2", "lon2")).reset_index("y", drop=True).assign_coords(y=np.arange(6))
+            a = _fit(model, X2, Y=Y2)
+            b = _fit(model, X2.transpose("x", "time"), Y=Y2.transpose("y", "time"))
+            if real.relerr(a.data["singular_values"].values, b.data["singular_values"].values) > tol:
+                msgs.append("transpose-2d: singular values change")
+            _cmp(a.scores()[0], b.scores()[0], "transpose-2d: scores", msgs, tol)
     elif rel == "feature-permutation":
         idx = rng.permutation(da.sizes["lon"])
         check(_fit(model, da.isel(lon=idx), Y=Y))
@@ -276,6 +383,8 @@ def bounded_cases(tier, seed):
                 pass
             for variant in ((0, 1) if rel == "transpose" else (0,)):
                 cases.append(dict(model=model, relation=rel, variant=variant, keep=rel == "custom-names"))
+    for model in ("EOF", "MCA", "CPCCA"):
+        cases.append(dict(model=model, relation="transpose-2d", keep=True))
     for (sn, fn_) in (("sample_", "feat"), ("time2", "space"), ("n", "p")):
         cases.append(dict(model="EOF", relation="custom-names", sname=sn, fname=fn_, keep=True))
     for i, c in enumerate(cases):
